@@ -140,8 +140,18 @@ def load(path):
     bases, cases, rej = [], [], []
     for l in open(path):
         o = json.loads(l)
+        if o["kind"] == "placeholders":
+            continue
         (bases if o["kind"] == "base" else cases if o["kind"] == "case" else rej).append(o)
     return bases, cases, rej
+
+
+def load_placeholders(path):
+    """round 7: the placeholder words harness sqlinject read from the string constants of the repository (one record per run)"""
+    for l in open(path):
+        if l.startswith('{"kind":"placeholders"') or '"kind":"placeholders"' in l[:60]:
+            return list(json.loads(l).get("words") or [])
+    return None
 
 
 def describe(c):
@@ -370,6 +380,27 @@ def run_correspondence(ck, known):
     ck.obligation("directive grid: each of the %d value positions has fmt-verb / placeholder strings (%%', a%%sb, %%%%', %%[1]s%%!d) evaluated in every run; positions whose value is rendered inside a JOIN clause: %d (%s), each family with directive strings there"
                   % (len(value_sites), len(join_sites), {f: len(l) for f, l in fam.items()}), not thin_d and not nojoin,
                   "fewer than 3 directive strings evaluated at: %s; no position inside a JOIN clause with directive strings for: %s" % (thin_d[:8], nojoin))
+    # round 7 (seeded C10-g: a template with NAMED placeholders filled by successive strings.ReplaceAll; the later substitutions run over the
+    # rendered request string too).  The words a home-made template knows cannot be guessed: the harness reads every `{word}` / `$word` /
+    # `${word}` out of the string constants of the repository's reader/ and tries each at every position in every run.
+    words = load_placeholders([p for t, p in runs if t == "gen"][0])
+    pgrid = {}
+    for tag, path in runs:
+        if tag != "gen":
+            continue
+        b_, c_, r_ = load(path)
+        for c in c_ + r_:
+            if c.get("class") in ("grid:placeholder", "grid:placeholder-fixed"):
+                pgrid.setdefault(c["site"], set()).add(c["val"])
+    thin_p = sorted(st for st in allsites if len(pgrid.get(st, ())) < len(set(words or []) | {"{id}", "$name"}))
+    named = [bytes.fromhex(c["val"]) for c in by_id.values() if c["site"].startswith("logql.regexp")]
+    n_named = sum(1 for v in named if any(w in v for w in (b"{labels}", b"{id}", b"{col}", b"{re}", b"$name", b"${name}", b"{name}")))
+    ck.obligation("placeholder grid: the %d placeholder words found in the string constants of the repository's reader/ (%s) and the fixed words {id}, $name are tried at each of the %d positions in every run; the `| regexp` stage has %d evaluated expressions holding a named placeholder ({labels}, {id}, {col}, {re}, {name}, $name, ${name}), with and without named groups around the value"
+                  % (len(words or []), " ".join(words or []), len(allsites), n_named),
+                  words is not None and not thin_p and n_named >= 12 and sites.get("logql.regexp.groups", 0) >= 10,
+                  "harvest record missing: %s; positions without the whole word list: %s; logql.regexp.groups cases: %d" % (words is None, thin_p[:8], sites.get("logql.regexp.groups", 0)))
+    ck.extra["placeholder_words"] = {"harvested_from_reader_string_constants": words, "grid_values_per_position": {k: len(v) for k, v in sorted(pgrid.items())},
+                                     "regexp_stage_expressions_with_a_named_placeholder": n_named}
     ck.extra["directive_strings"] = {"grid_values_evaluated_per_position": {k: len(v) for k, v in sorted(dgrid.items())},
                                      "positions_whose_value_is_rendered_inside_a_JOIN_clause_[cases]": join_sites,
                                      "cases_with_a_directive_byte_(%$?{@:)_inside_a_JOIN_clause": directive_in_join}
